@@ -21,7 +21,8 @@ CallbackPoints == {"SendTaskSuccess.output"}
 DefinitionPoints == {"CreateStateMachine.definition", "UpdateStateMachine.definition"}
 NamePoints == {"CreateStateMachine.name", "StartExecution.name", "StartSyncExecution.name"}
 (* decided inside an execution: the state fails *)
-StateOutputPoints == {"Pass.output", "Task.output", "Map.output", "Parallel.output"}
+(* Catch.output: the Error Output placed by a Catcher's ResultPath into the state's input IS the state's output *)
+StateOutputPoints == {"Pass.output", "Task.output", "Map.output", "Parallel.output", "Catch.output"}
 TaskResultPoints == {"Task.result", "Task.reply"}
 
 ApiPoints == InputPoints \cup CallbackPoints \cup DefinitionPoints \cup NamePoints
